@@ -34,6 +34,16 @@ def c02(chk):
         count_cases(chk, summ, lambda r: (r["nonce"], r.get("len", 0) // 20000, r.get("status"))
                     if r["ev"] == "obs.rpc_result" and r.get("ok") else None)
     sample_events(chk, summ, ("obs.rpc_call", "app.start", "app.end", "obs.rpc_result"), n=4)
+    # the middleware an application may put around its service or its calls (anemo-tower: request id,
+    # set header, classifier, callback, trace): each changes exactly what AnemoTowerMisc says, nothing else
+    tables = vlib.tlc_tables("AnemoTowerMisc.tla", "AnemoTowerMisc.cfg")
+    chk.states += sum(len(v) for v in tables.values())
+    chk.parts.setdefault("tlc", []).append({"module": "AnemoTowerMisc.tla", "rows": {k: len(v) for k, v in tables.items()}})
+    tm = vlib.harness("replay-towermisc", table=vlib.write_json(os.path.join(vlib.WORK, "C02_towermisc.json"), tables))
+    from props import replay_check
+    replay_check(chk, "tower-misc", tm)
+    spec_mutant(chk, "propagate_overrides_handler", "AnemoTowerMisc.tla", "AnemoTowerMisc.cfg",
+                [("AnemoTowerMisc.tla", '  IF respHdr # "none" THEN [hdr |-> respHdr,', '  IF respHdr # "none" /\\ reqHdr = "none" THEN [hdr |-> respHdr,')], workers=1)
     spec_mutant(chk, "invoke_again", "AnemoRpc.tla", "MC_Rpc.cfg",
                 [("AnemoRpc.tla", '             /\\ ss\' = [ss EXCEPT ![q] = "handling"]\n             /\\ invoked\'',
                   "             /\\ ss' = ss\n             /\\ invoked'")], workers=4)
